@@ -201,8 +201,36 @@ def _fill_len(s):
     return c
 
 
+def check_fallible_draws(ctx, P, rule="E6.fallible-draw"):
+    """A fallible draw (`try_fill_bytes`, `try_fill`) reports failure through its Result: the buffer is only used as
+    random bytes where the Ok edge was taken - the Result is propagated with `?`, unwrapped, or switched on.  A Result that
+    is dropped or defaulted (`.ok()`, `.unwrap_or_default()`, `let _ =`) leaves a possibly unfilled buffer in use."""
+    n = 0
+    for f in P.fns.values():
+        if f.from_expansion:
+            continue
+        if not any((t.get("callee") or {}).get("name") in ("try_fill_bytes", "try_fill") for _, t in f.calls()):
+            continue
+        ev = evaluate(f)
+        for bb, s_ in sorted(ev.sites.items()):
+            if s_.callee[0] not in ("RngCore::try_fill_bytes", "Rng::try_fill"):
+                continue
+            n += 1
+            v = s_.value
+            checked = False
+            for b2, d in ev.switch.items():
+                if d is not None and any(x is v or x == v for x in subterms(d)):
+                    checked = True
+            for b2, s2 in ev.sites.items():
+                if b2 != bb and s2.callee[0] in ("Try::branch", "Result::<T, E>::unwrap", "Result::<T, E>::expect") and s2.args and any(x is v or x == v for x in subterms(s2.args[0])):
+                    checked = True
+            ctx.ob(rule, "%s@bb%d" % (f.key, bb), checked, "the Result of %s is propagated (`?`), unwrapped or branched on before the buffer is used" % s_.callee[0], where=where(f, bb))
+    ctx.ob(rule, "census", True, "%d fallible draw(s) in the crate inspected" % n)
+
+
 def run(ctx):
     P = ctx.P
+    check_fallible_draws(ctx, P)
     # 1. constructor census
     cons = PC.rng_constructors(P)
     ent = [c for c in cons if c[3] == "from_entropy"]
